@@ -27,7 +27,8 @@ PROBES = ["immediate_clear", "timed_clear", "clear_by_event", "clear_by_nested_c
           "mode_start_on_queue", "mode_wait_queue_held", "mode_start_noop_active", "mode_starting_has_handlers",
           "mode_starting_waiter", "relay_player_wait", "mr_relay_wait", "mr_relay_cleared_by_stop", "qep_post",
           "relay_chain3", "relay_empty_kwargs", "bool_false_midway", "bool_no_false",
-          "rewait_same_queue", "forwarded_queue_nested", "shared_queue_second_wait", "relay_reg_collides_posted",
+          "relative_priority_handler", "coro_ends_cancelled", "coro_task_cancelled",
+          "coro_awaited_future_cancelled", "rewait_same_queue", "forwarded_queue_nested", "shared_queue_second_wait", "relay_reg_collides_posted",
           "relay_ret_collides_reg", "handler_removed_in_flight", "all_handlers_removed_after_post", "late_after_stall"]
 REAL = ["mpf.core.events.EventManager (post_queue/_async, post_relay/_async, post_boolean, add_async_handler, "
         "QueuedEvent)", "mpf.core.mode.Mode start/stop incl. use_wait_queue", "mpf.core.mode_controller",
@@ -53,6 +54,15 @@ CEV = H.CEV
 DELAYS = [0.0, 0.0, 0.001, 0.01, 0.01, 0.05, 0.1, 0.1, 0.25, 0.5, 2.5]     # 2.5: rare long wait
 PRIOS = [10, 50, 100, 120, 150, 200, 300]
 LEVELS = {e: i for i, e in enumerate(QEV + REV + BEV)}
+
+
+def _prio(ch, h, feat, decorate=True):
+    """Nominal priority (small offsets so that priorities lie close together) and, for a share of the handlers,
+    a relative priority as carried by @event_handler(n) callables (effective priority = nominal + relative)."""
+    h["prio"] = ch.pick("prio", PRIOS) + ch.pick("prio_off", [0, 0, 0, 1, 3, 5, 6])
+    if decorate and feat["relprio"] and ch.flag("rel", 0.4):
+        h["rel"] = 1 + ch.choice("relv", 10)
+    return h
 
 
 def _higher(ev, feat):
@@ -113,7 +123,7 @@ def _gen_acts(ch, ev, feat, only_clear=False, fwd=False):
 
 
 def _gen_queue_handler(ch, hid, ev, feat, only_clear=False):
-    h = {"hid": hid, "ev": ev, "prio": ch.pick("prio", PRIOS), "acts": []}
+    h = _prio(ch, {"hid": hid, "ev": ev, "acts": []}, feat)
     kinds = [("wait", 5), ("sync", 3)]
     if feat["coro"]:
         kinds.append(("coro", 2))
@@ -146,6 +156,10 @@ def _gen_queue_handler(ch, hid, ev, feat, only_clear=False):
                 seg["await_q"] = [ch.pick("nest_ev", hi), _kw(ch)]
             segs.append(seg)
         h["segs"] = segs
+        h.pop("rel", None)     # add_async_handler registers a functools.partial: no relative priority
+        if feat["cancel"] and ch.flag("coro_cancel", 0.45):
+            # the coroutine ends cancelled: it awaits a future its owner cancels / its task is cancelled
+            h["cancel"] = [ch.pick("cancel_how", ["fut", "task"]), ch.pick("d", DELAYS)]
     unlocked_after = h["kind"] == "sync" or (h["kind"] == "wait" and h["clear"] == ["now"])
     h["acts"] = _gen_acts(ch, ev, feat, only_clear, fwd=unlocked_after)
     return h
@@ -157,7 +171,8 @@ def plan(ch, tier):
     feat = {"modes": ch.flag("f.modes", 0.7), "msh": ch.flag("f.msh", 0.5), "nested": ch.flag("f.nested", 0.6),
             "coro": ch.flag("f.coro", 0.6), "relay": ch.flag("f.relay", 0.5), "bool": ch.flag("f.bool", 0.5),
             "rm": ch.flag("f.rm", 0.3), "qep": ch.flag("f.qep", 0.25), "mr": ch.flag("f.mr", 0.4),
-            "fwd": ch.flag("f.fwd", 0.6), "rewait": ch.flag("f.rewait", 0.6)}
+            "fwd": ch.flag("f.fwd", 0.6), "rewait": ch.flag("f.rewait", 0.6),
+            "relprio": ch.flag("f.relprio", 0.6), "cancel": ch.flag("f.cancel", 0.6)}
     handlers = []
     hid = [0]
 
@@ -178,8 +193,7 @@ def plan(ch, tier):
         for ev in REV:
             for _ in range(1 + ch.choice("nh_r", 5)):
                 r = ch.weighted("rret", [("delta", 5), ("none", 2), ("true", 1), ("zero", 1)])
-                h = {"hid": nh(), "ev": ev, "prio": ch.pick("prio", PRIOS), "kind": "relay",
-                     "acts": _gen_acts(ch, ev, feat)}
+                h = _prio(ch, {"hid": nh(), "ev": ev, "kind": "relay", "acts": _gen_acts(ch, ev, feat)}, feat)
                 if r == "delta":
                     h["ret"] = {ch.pick("rk", ["a", "b", "x"]): ch.choice("rv", 5) + 10
                                 for _ in range(1 + ch.choice("rn", 2))}
@@ -198,9 +212,10 @@ def plan(ch, tier):
         for ev in BEV:
             for _ in range(1 + ch.choice("nh_b", 5)):
                 r = ch.weighted("bret", [("none", 3), ("false", 2), ("true", 2), ("zero", 1), ("dict", 1)])
-                handlers.append({"hid": nh(), "ev": ev, "prio": ch.pick("prio", PRIOS), "kind": "bool",
-                                 "ret": {"none": None, "false": False, "true": True, "zero": 0, "dict": {"z": 1}}[r],
-                                 "acts": _gen_acts(ch, ev, feat)})
+                handlers.append(_prio(ch, {"hid": nh(), "ev": ev, "kind": "bool",
+                                           "ret": {"none": None, "false": False, "true": True, "zero": 0,
+                                                   "dict": {"z": 1}}[r],
+                                           "acts": _gen_acts(ch, ev, feat)}, feat))
     # root operations -------------------------------------------------------------------
     postable = list(qevs)
     if feat["relay"]:
@@ -271,8 +286,12 @@ def shrink(plan):
         simpler = []
         if h.get("acts"):
             simpler.append(dict(h, acts=[]))
+        if h.get("rel"):
+            simpler.append({k: v for k, v in h.items() if k != "rel"})
+        if h.get("cancel"):
+            simpler.append({k: v for k, v in h.items() if k != "cancel"})
         if h["kind"] == "coro":
-            simpler.append({k: v for k, v in h.items() if k != "segs"} | {"kind": "sync"})
+            simpler.append({k: v for k, v in h.items() if k not in ("segs", "cancel")} | {"kind": "sync"})
             if len(h["segs"]) > 1:
                 simpler.append(dict(h, segs=h["segs"][:1]))
         if h["kind"] == "wait":
